@@ -176,7 +176,9 @@ def expected_decode(cls, tsx, attrs):
 
 # ---------------------------------------------------------------- generators
 ADDRS4 = ["192.0.2.66", "10.0.0.0", "0.0.0.0", "255.255.255.255", "33.18.164.66", "33.18.164.0", "33.18.0.0", "127.0.0.1", "1.2.3.0", "100.64.0.0", "198.51.100.7"]
-ADDRS6 = ["::", "::1", "2001:db8::1", "2001:db8::", "ffff:ffff:ffff:ffff:ffff:ffff:ffff:ffff", "2112:a442:102:304:506:708:90a:b0c", "2112:a442:102:304:506:708:90a:b00", "fe80::1:0:0"]
+ADDRS6 = ["::", "::1", "2001:db8::1", "2001:db8::", "ffff:ffff:ffff:ffff:ffff:ffff:ffff:ffff", "2112:a442:102:304:506:708:90a:b0c", "2112:a442:102:304:506:708:90a:b00", "fe80::1:0:0",
+          # IPv4-mapped, NAT64 and IPv4-compatible addresses: family 2 stays family 2
+          "::ffff:c000:207", "::ffff:0:0", "::ffff:ffff:ffff", "64:ff9b::c000:221", "::c000:201"]
 PORTS = [0, 1, 255, 256, 3478, 8466, 8448, 65535]       # 8466 = 0x2112 (XORs to 0), 8448 = 0x2100
 TSX = [0, (1 << 96) - 1, 0x0102030405060708090a0b0c, 0x0102030405060708090a0b00, 0x010203040506070800000000]
 
@@ -401,7 +403,9 @@ def oracle(case, impl):
             if built != want:
                 out.append("builder output differs from the RFC 8489 encoding: built %s, RFC %s" % (built, want))
         exp = expected_decode(cls, tsx, attrs)
-        if m.group(2) != exp:
+        # IPv6 text forms differ between printers (::ffff:c000:207 / ::ffff:192.0.2.7): compare the 128-bit value and the family
+        canon = lambda t: re.sub(r"=\[([0-9a-fA-F:.]+)\]:(\d+)", _v6, t)
+        if canon(m.group(2)) != canon(exp):
             pre = "trailing-zero-variable-length: " if _known_ambiguous(attrs) else ""
             out.append(pre + "built message does not parse back to the same values: got [%s], expected [%s]" % (m.group(2), exp))
     elif kind == "dec":
@@ -437,7 +441,8 @@ def oracle(case, impl):
         else:
             cls, tsx = case[5], int(case[6], 16)
             exp = expected_decode(cls, tsx, attrs)
-            if got != exp:
+            canon = lambda t: re.sub(r"=\[([0-9a-fA-F:.]+)\]:(\d+)", _v6, t)
+            if canon(got) != canon(exp):
                 pre = "trailing-zero-variable-length: " if _known_ambiguous(attrs) else ""
                 out.append(pre + "RFC 8489 encoded message does not decode to the original values: got [%s], expected [%s]" % (got, exp))
     elif kind == "demux":
